@@ -73,8 +73,12 @@ func Write(out io.Writer, node ast.Node, options Options) (err error) {
 		importsBuf.WriteRune('\n')
 	}
 
-	out.Write(importsBuf.Bytes())
-	out.Write(tmpOut.Bytes())
+	if _, err := out.Write(importsBuf.Bytes()); err != nil {
+		return err
+	}
+	if _, err := out.Write(tmpOut.Bytes()); err != nil {
+		return err
+	}
 
 	return nil
 }
